@@ -233,6 +233,27 @@ def run(ctx, rep):
                     expired_edge = tt if e[1] in ('Le', 'Lt') and has_call_last(e[3], 'now') else (tt if e[1] in ('Ge', 'Gt') and has_call_last(e[2], 'now') else tf)
                     heads = {c.bb for c in ib.calls if (c.fn or '').endswith('Iterator::next')}
                     f = ins[0].bb not in ib.reachable(expired_edge, avoid_blocks={bb} | heads)
+        if ins and f is None:
+            # the same test written as `expiry_at.is_some_and(|e| e.as_micros() <= now().as_micros())`: the switch is on the
+            # predicate call, the comparison is the result of its closure
+            import guardpol as gp_
+            for bb, t, e in switch_exprs(ib):
+                if t.get('ty') != 'bool' or e[0] != 'call' or e[1].split('::')[-1] != 'is_some_and' or not expr_has(e, lambda x: x[0] == 'call' and x[3] == ce[0].bb):
+                    continue
+                recs = {}
+                for d_ in ctx.facts.body_defs():
+                    if d_.startswith('server::state::system::SystemState::init::{closure'):
+                        try:
+                            recs.update({k: v for k, v in gp_.sites(ctx, d_).items() if k.endswith('<result>') and 'now' in k})
+                        except Exception:
+                            pass
+                # predicate true exactly when expiry <= now: result holds for {eq, lt} or {eq, gt} depending on the operand order of the key
+                expired_when_true = any(('now' in k.split(' @@ ')[0] and 'now' not in k.split(' @@ ')[1] and v == ['eq,gt']) or
+                                        ('now' in k.split(' @@ ')[1] and 'now' not in k.split(' @@ ')[0] and v == ['eq,lt']) for k, v in recs.items())
+                if expired_when_true:
+                    tt, tf = bool_targets(t)
+                    heads = {c.bb for c in ib.calls if (c.fn or '').endswith('Iterator::next')}
+                    f = ins[0].bb not in ib.reachable(tt, avoid_blocks={bb} | heads)
         rep.ob('R10.e', 'server::state::system::SystemState::init', 'expired tokens dropped', bool(f), ins[0].where() if ins else None,
                'the token insert is unreachable from the expired edge' if f else 'replay re-installs a token that is already expired (or the expiry test is gone)')
 
